@@ -521,41 +521,95 @@ pub fn scenario_of(spec: &SoloSpec, seed: u64, tier: Tier, i: u64, runs: u64) ->
     if i < runs {
         draw_for(spec, seed, tier, i)
     } else if i < runs + deep {
-        deep_scenario(seed, tier, i - runs)
+        deep_scenario(spec, seed, tier, i - runs)
     } else {
         enum_scenario(spec, tier, i - runs - deep)
     }
 }
 
-/// C09 only: long runs driven by a *periodic* fuzzer script (a stuck or looping entropy source):
-/// the same few choices repeated tens of thousands of times build the deepest object graphs
+/// Extremal-state runs ("deep runs"): long generations driven by a *periodic* fuzzer script (a
+/// stuck or looping entropy source) or by an exhausted one. The same few choices repeated tens of
+/// thousands of times push one dimension of the generator's state to an extreme — nesting depth of
+/// the object graph, stack depth, number of open MARKs, memo size, output size — which is where
+/// size thresholds, safety counters and recursion limits live. The patterns are found by an adaptive,
+/// seeded search: candidates are probed cheaply (800 opcodes) and ranked per dimension by what the
+/// reference machine R3 measures; the best ones are then run at scale.
 pub fn deep_count(spec: &SoloSpec, tier: Tier) -> u64 {
-    if spec.prop != "C09" {
-        return 0;
-    }
-    match tier {
-        Tier::Quick => 16,
-        Tier::Thorough => 400,
+    match (spec.prop, tier) {
+        ("C09", Tier::Quick) => 20,
+        ("C09", Tier::Thorough) => 400,
+        ("C08", Tier::Quick) => 8,
+        ("C08", Tier::Thorough) => 60,
+        ("C14", Tier::Quick) => 6,
+        ("C14", Tier::Thorough) => 40,
+        ("C15", _) | ("C16", _) => 0,
+        (_, Tier::Quick) => 12,
+        (_, Tier::Thorough) => 90,
     }
 }
 
-/// periodic-script patterns ranked by how deep an object graph they build in a cheap probe run
-/// (1200 opcodes, reference machine's nesting depth): an adaptive, seeded search for the inputs that
-/// nest deepest, computed identically in the supervisor and in every worker process
-fn deep_patterns(seed: u64) -> &'static Vec<(u8, Vec<u8>, u32)> {
+#[derive(Clone, Debug)]
+pub struct Pattern {
+    pub protocol: u8,
+    pub pat: Vec<u8>,
+    /// measured in the probe: nesting depth, max stack depth, max open MARKs, max memo size, output bytes
+    pub score: [u32; 5],
+}
+
+pub const OBJECTIVES: [&str; 5] = ["nesting-depth", "stack-depth", "open-marks", "memo-size", "output-bytes"];
+
+fn probe_pattern(p: u8, pat: &[u8]) -> [u32; 5] {
+    let probe = 800usize;
+    let mut c = Config::default_for(p);
+    c.min_opcodes = probe;
+    c.max_opcodes = probe;
+    let script: Vec<u8> = if pat.is_empty() { vec![] } else { (0..probe + 64).map(|j| pat[j % pat.len()]).collect() };
+    let sc = Scenario::solo(c, Entropy::Bytes(script));
+    let recs = exec::run_scenario(&sc, Trace::Off, false);
+    let Some(b) = recs.first().and_then(|r| r.outcome.bytes()) else { return [0; 5] };
+    let (ops, err) = crate::lexer::lex(b);
+    if err.is_some() {
+        return [0, 0, 0, 0, b.len() as u32];
+    }
+    // one pass of the reference machine, tracking the extremes
+    let mut m = crate::machine::Machine::new();
+    m.track_graph = true;
+    m.lenient_memo = true;
+    let (mut max_stack, mut max_marks, mut max_memo) = (0u32, 0u32, 0u32);
+    for op in &ops {
+        if m.step(op).is_err() {
+            break;
+        }
+        max_stack = max_stack.max(m.stack.len() as u32);
+        max_memo = max_memo.max(m.memo.len() as u32);
+        if op.name() == "MARK" {
+            max_marks = max_marks.max(m.stack.iter().filter(|s| s.is_mark()).count() as u32);
+        }
+    }
+    [m.max_depth, max_stack, max_marks, max_memo, b.len() as u32]
+}
+
+fn deep_patterns(seed: u64) -> &'static Vec<Pattern> {
     use std::sync::OnceLock;
-    static CACHE: OnceLock<(u64, Vec<(u8, Vec<u8>, u32)>)> = OnceLock::new();
+    static CACHE: OnceLock<(u64, Vec<Pattern>)> = OnceLock::new();
     let c = CACHE.get_or_init(|| {
         use rand::Rng;
-        // a supervisor computes the ranking once and hands it to its workers through a file
+        // a supervisor computes the table once and hands it to its workers through a file
         if let Ok(path) = std::env::var("PFSIM_DEEP_FILE") {
             if let Ok(txt) = std::fs::read_to_string(&path) {
                 if let Ok(v) = serde_json::from_str::<Value>(&txt) {
                     if v["seed"].as_str() == Some(&seed.to_string()) {
                         if let Some(a) = v["patterns"].as_array() {
-                            let pats: Vec<(u8, Vec<u8>, u32)> = a
+                            let pats: Vec<Pattern> = a
                                 .iter()
-                                .filter_map(|e| Some((e[0].as_u64()? as u8, desc::unhex(e[1].as_str()?).ok()?, e[2].as_u64()? as u32)))
+                                .filter_map(|e| {
+                                    let sc = e[2].as_array()?;
+                                    let mut score = [0u32; 5];
+                                    for (i, x) in sc.iter().enumerate().take(5) {
+                                        score[i] = x.as_u64()? as u32;
+                                    }
+                                    Some(Pattern { protocol: e[0].as_u64()? as u8, pat: desc::unhex(e[1].as_str()?).ok()?, score })
+                                })
                                 .collect();
                             if !pats.is_empty() {
                                 return (seed, pats);
@@ -567,17 +621,18 @@ fn deep_patterns(seed: u64) -> &'static Vec<(u8, Vec<u8>, u32)> {
         }
         let mut cands: Vec<(u8, Vec<u8>)> = vec![];
         for p in 0..6u8 {
+            cands.push((p, vec![])); // the exhausted source
             for b in 0..=255u8 {
                 cands.push((p, vec![b]));
             }
-            let mut rng = mix::rng_from(desc::derive_seed(seed, "C09.deep.patterns", p as u64));
+            let mut rng = mix::rng_from(desc::derive_seed(seed, "deep.patterns", p as u64));
             for _ in 0..96 {
                 let n = rng.random_range(2..=3);
                 cands.push((p, (0..n).map(|_| rng.random()).collect()));
             }
         }
         let nt = n_threads();
-        let chunks: Vec<Vec<(u8, Vec<u8>, u32)>> = std::thread::scope(|s| {
+        let chunks: Vec<Vec<Pattern>> = std::thread::scope(|s| {
             let cands = &cands;
             let hs: Vec<_> = (0..nt)
                 .map(|t| {
@@ -586,73 +641,118 @@ fn deep_patterns(seed: u64) -> &'static Vec<(u8, Vec<u8>, u32)> {
                         let mut i = t;
                         while i < cands.len() {
                             let (p, pat) = &cands[i];
-                            let probe = 800usize;
-                            let mut c = Config::default_for(*p);
-                            c.min_opcodes = probe;
-                            c.max_opcodes = probe;
-                            let script: Vec<u8> = (0..probe + 64).map(|j| pat[j % pat.len()]).collect();
-                            let sc = Scenario::solo(c, Entropy::Bytes(script));
-                            let recs = exec::run_scenario(&sc, Trace::Off, false);
-                            let depth = recs
-                                .first()
-                                .and_then(|r| r.outcome.bytes())
-                                .map(|b| {
-                                    let (ops, err) = crate::lexer::lex(b);
-                                    if err.is_some() {
-                                        0
-                                    } else {
-                                        crate::machine::run(&ops, true, true).max_depth
-                                    }
-                                })
-                                .unwrap_or(0);
-                            out.push((*p, pat.clone(), depth));
+                            out.push((i, Pattern { protocol: *p, pat: pat.clone(), score: probe_pattern(*p, pat) }));
                             i += nt;
                         }
                         out
                     })
                 })
                 .collect();
-            hs.into_iter().map(|h| h.join().unwrap()).collect()
+            let mut all: Vec<(usize, Pattern)> = hs.into_iter().flat_map(|h| h.join().unwrap()).collect();
+            all.sort_by_key(|x| x.0);
+            vec![all.into_iter().map(|x| x.1).collect()]
         });
-        let mut all: Vec<(u8, Vec<u8>, u32)> = chunks.into_iter().flatten().collect();
-        all.sort_by(|a, b| b.2.cmp(&a.2).then(a.0.cmp(&b.0)).then(a.1.cmp(&b.1)));
-        (seed, all)
+        (seed, chunks.into_iter().flatten().collect())
     });
     &c.1
 }
 
-/// write the ranking to a file and export its path for worker processes
+/// the ordered list of (pattern index, objective) the deep runs go through: rank by rank, objective
+/// by objective, alternately for the old protocols (0-1) and the new ones (2-5)
+fn deep_schedule(seed: u64) -> &'static Vec<(usize, usize)> {
+    use std::sync::OnceLock;
+    static CACHE: OnceLock<Vec<(usize, usize)>> = OnceLock::new();
+    CACHE.get_or_init(|| {
+        let pats = deep_patterns(seed);
+        let mut order: Vec<(usize, usize)> = vec![];
+        let mut used = std::collections::HashSet::new();
+        let ranked: Vec<Vec<Vec<usize>>> = (0..5)
+            .map(|obj| {
+                [0u8..=1, 2u8..=5]
+                    .iter()
+                    .map(|grp| {
+                        let mut idx: Vec<usize> = (0..pats.len()).filter(|&i| grp.contains(&pats[i].protocol)).collect();
+                        idx.sort_by(|&a, &b| pats[b].score[obj].cmp(&pats[a].score[obj]).then(pats[a].protocol.cmp(&pats[b].protocol)).then(pats[a].pat.cmp(&pats[b].pat)));
+                        idx
+                    })
+                    .collect()
+            })
+            .collect();
+        for rank in 0..pats.len() {
+            for obj in 0..5 {
+                for g in 0..2 {
+                    if let Some(&i) = ranked[obj][g].get(rank) {
+                        if used.insert(i) {
+                            order.push((i, obj));
+                        }
+                    }
+                }
+            }
+            if order.len() >= 600 {
+                break;
+            }
+        }
+        order
+    })
+}
+
+/// write the probe table to a file and export its path for worker processes
 pub fn export_deep_patterns(seed: u64) {
     let pats = deep_patterns(seed);
     let dir = format!("{}/target/tmp", verif_root());
     let _ = std::fs::create_dir_all(&dir);
     let path = format!("{}/deep-patterns-{}.json", dir, std::process::id());
-    let doc = json!({"seed": seed.to_string(), "patterns": pats.iter().map(|(p, b, d)| json!([p, desc::hex(b), d])).collect::<Vec<_>>()});
+    let doc = json!({"seed": seed.to_string(), "patterns": pats.iter().map(|p| json!([p.protocol, desc::hex(&p.pat), p.score.to_vec()])).collect::<Vec<_>>()});
     if std::fs::write(&path, doc.to_string()).is_ok() {
         std::env::set_var("PFSIM_DEEP_FILE", &path);
     }
 }
 
-pub fn deep_scenario(seed: u64, tier: Tier, k: u64) -> Scenario {
+pub fn deep_scenario(spec: &SoloSpec, seed: u64, tier: Tier, k: u64) -> Scenario {
     use rand::Rng;
     let pats = deep_patterns(seed);
-    let mut rng = mix::rng_from(desc::derive_seed(seed, "C09.deep", k));
-    // the deepest-nesting patterns first
-    let (p, pat, probe_depth) = pats[(k as usize) % pats.len()].clone();
-    let n = match tier {
-        Tier::Quick => rng.random_range(28_000..36_000usize),
-        Tier::Thorough => [12_000usize, 20_000, 30_000, 40_000, 50_000][(k % 5) as usize],
+    let order = deep_schedule(seed);
+    let (pi, obj) = order[(k as usize) % order.len()];
+    let pat = &pats[pi];
+    let mut rng = mix::rng_from(desc::derive_seed(seed, "deep", k));
+    // nesting-depth runs are cheap (small stack) and need > 18 000 levels to matter for a 2 MiB stack;
+    // the others cost O(n * stack) and cross the interesting thresholds (8 192, 10 000, 128 KiB) early
+    let n = match (tier, obj) {
+        (Tier::Quick, 0) => rng.random_range(28_000..36_000usize),
+        (Tier::Quick, _) => rng.random_range(10_500..12_500usize),
+        (Tier::Thorough, 0) => [12_000usize, 20_000, 30_000, 40_000, 50_000][(k % 5) as usize],
+        (Tier::Thorough, _) => [9_000usize, 11_000, 16_000, 22_000, 30_000][(k % 5) as usize],
     };
-    let script: Vec<u8> = (0..n + 64).map(|j| pat[j % pat.len()]).collect();
-    let mut c = Config::default_for(p);
+    let script: Vec<u8> = if pat.pat.is_empty() { vec![] } else { (0..n + 64).map(|j| pat.pat[j % pat.pat.len()]).collect() };
+    let mut c = Config::default_for(pat.protocol);
     c.min_opcodes = n;
     c.max_opcodes = n;
-    let mut sc = Scenario::solo(c, Entropy::Bytes(script));
-    sc.faults.push(desc::Fault {
+    let fault = desc::Fault {
         kind: "stuck",
         at: 0,
-        detail: format!("periodic script {:02x?} (nesting depth {} in an 800-opcode probe), {} opcodes", pat, probe_depth, n),
-    });
+        detail: format!(
+            "{} script {:02x?} chosen for {} (probe scores nesting/stack/marks/memo/bytes = {:?}), {} opcodes",
+            if pat.pat.is_empty() { "exhausted".to_string() } else { format!("periodic (period {})", pat.pat.len()) },
+            pat.pat,
+            OBJECTIVES[obj],
+            pat.score,
+            n
+        ),
+    };
+    let deep_call = HOp::Gen(Entropy::Bytes(script));
+    let mut sc = Scenario::solo(c, Entropy::Rand(0));
+    if spec.hist_p >= 1.0 || spec.prop == "C14" {
+        // history properties: the extreme call first, then ordinary calls on the same generator
+        let follow = Entropy::Rand(rng.random::<u64>() >> 20);
+        sc.history = match k % 3 {
+            0 => vec![deep_call, HOp::SetRange(10, 60), HOp::Gen(follow)],
+            1 => vec![deep_call, HOp::Reset, HOp::SetRange(10, 60), HOp::Gen(follow)],
+            _ => vec![HOp::SetRange(10, 60), HOp::Gen(follow.clone()), HOp::SetRange(n, n), deep_call, HOp::SetRange(10, 60), HOp::Gen(follow)],
+        };
+    } else {
+        sc.history = vec![deep_call];
+    }
+    sc.faults.push(fault);
     sc
 }
 
@@ -661,7 +761,7 @@ pub fn run_one(spec: &SoloSpec, seed: u64, tier: Tier, i: u64, runs: u64, stats:
     if i >= runs + deep_count(spec, tier) {
         stats.bump("fault.cut.enumerated_short_script(runs)");
     } else if i >= runs {
-        stats.bump("fault.stuck.periodic_script_long_run(runs)");
+        stats.bump("fault.stuck.extremal_state_long_run(runs)");
     }
     let recs = if spec.prop == "C14" { vec![] } else { exec::run_scenario(&sc, trace_for(spec, &sc), spec.spy) };
     stats.evaluations += 1;
@@ -1179,4 +1279,177 @@ pub fn default_assumptions() -> Vec<String> {
 
 pub fn config_default(protocol: u8) -> Config {
     Config::default_for(protocol)
+}
+
+// ------------------------------------------------------------------------------------------
+// systematic enumeration of the generator's decision tree from the empty stack
+
+/// One node of the decision tree: the exact fuzzer script that makes the generator emit `ops`
+/// (one byte per opcode choice, zero bytes for every argument draw) with min = max = ops.len().
+#[derive(Clone, Debug)]
+pub struct TreeNode {
+    pub script: Vec<u8>,
+    pub ops: Vec<u8>,
+}
+
+pub fn tree_config(protocol: u8, depth: usize) -> Config {
+    let mut c = Config::default_for(protocol);
+    c.min_opcodes = depth;
+    c.max_opcodes = depth;
+    c.allow_ext = true;
+    c.allow_buffer = true;
+    c
+}
+
+/// run the generator on `script` (padded with zeros) for exactly `depth` body opcodes; returns the
+/// record, the body opcode bytes and the number of script bytes consumed
+fn tree_run(protocol: u8, script: &[u8], depth: usize, trace: Trace) -> (Scenario, Vec<CallRecord>, Vec<u8>, usize) {
+    let mut padded = script.to_vec();
+    padded.extend_from_slice(&[0u8; 96]);
+    let sc = Scenario::solo(tree_config(protocol, depth), Entropy::Bytes(padded.clone()));
+    let recs = exec::run_scenario(&sc, trace, false);
+    let mut ops = vec![];
+    let mut consumed = script.len();
+    if let Some(r) = recs.first() {
+        let mut in_body = false;
+        for e in &r.events {
+            match e {
+                pickle_fuzzer::verif::Event::Phase { phase, entropy_left, .. } => match phase {
+                    pickle_fuzzer::verif::Phase::Target => in_body = true,
+                    pickle_fuzzer::verif::Phase::BodyDone => {
+                        in_body = false;
+                        if let Some(l) = entropy_left {
+                            consumed = padded.len() - *l;
+                        }
+                    }
+                    _ => {}
+                },
+                pickle_fuzzer::verif::Event::Op { opcode, .. } if in_body => ops.push(*opcode),
+                _ => {}
+            }
+        }
+    }
+    (sc, recs, ops, consumed)
+}
+
+/// children of a node: every distinct opcode the next choice byte can select
+fn tree_children(protocol: u8, node: &TreeNode, trace: Trace, visit: &mut dyn FnMut(&Scenario, &[CallRecord])) -> Vec<TreeNode> {
+    let depth = node.ops.len() + 1;
+    let mut seen: Vec<u8> = vec![];
+    let mut seq: Vec<u8> = vec![];
+    let mut out = vec![];
+    for b in 0..=255u8 {
+        let mut script = node.script.clone();
+        script.push(b);
+        let (sc, recs, ops, consumed) = tree_run(protocol, &script, depth, trace);
+        if ops.len() != depth || ops[..depth - 1] != node.ops[..] {
+            // the byte was not consumed as this step's choice (e.g. a single candidate needs no draw)
+            seq.push(0);
+            continue;
+        }
+        let op = ops[depth - 1];
+        seq.push(op);
+        if !seen.contains(&op) {
+            seen.push(op);
+            visit(&sc, &recs);
+            let mut s2 = script.clone();
+            if consumed > s2.len() {
+                s2.resize(consumed, 0);
+            }
+            out.push(TreeNode { script: s2, ops });
+        }
+        // the choice is `byte % n`: once a full period has repeated, every candidate was seen
+        let n = seq.len();
+        if n >= 8 && n % 2 == 0 && seq[..n / 2] == seq[n / 2..] {
+            break;
+        }
+    }
+    out
+}
+
+pub struct TreeOutcome {
+    pub stats: Stats,
+    pub found: Vec<Found>,
+    pub nodes: u64,
+    pub depth: usize,
+}
+
+/// depth-first enumeration of all opcode-choice sequences of length <= depth for one property;
+/// every node's pickle (the sequence plus the generator's own cleanup tail) is judged
+pub fn tree_sweep(prop: &'static str, depth: usize, known: &[KnownFinding], wall_cap_s: f64) -> TreeOutcome {
+    let t0 = Instant::now();
+    let trace = if prop == "C17" { Trace::Full } else { Trace::Light };
+    // work items: (protocol, frame bit) roots, expanded one level sequentially, then subtrees in parallel
+    let mut level1: Vec<(u8, TreeNode)> = vec![];
+    let mut stats = Stats::default();
+    let mut found: Vec<Found> = vec![];
+    let mut nodes = 0u64;
+    for p in 0..6u8 {
+        let roots: Vec<Vec<u8>> = if p >= 4 { vec![vec![0u8], vec![1u8]] } else { vec![vec![]] };
+        for r in roots {
+            let root = TreeNode { script: r, ops: vec![] };
+            let mut visit = |sc: &Scenario, recs: &[CallRecord]| {
+                nodes += 1;
+                stats.evaluations += 1;
+                for v in evaluate_any(prop, sc, recs, &mut stats) {
+                    if known_match(known, &v).is_none() {
+                        found.push(Found { index: nodes, scenario: sc.clone(), violation: v });
+                    }
+                }
+            };
+            for c in tree_children(p, &root, trace, &mut visit) {
+                level1.push((p, c));
+            }
+        }
+    }
+    if depth >= 2 {
+        let nt = n_threads();
+        let next = AtomicU64::new(0);
+        let parts: Vec<(Stats, Vec<Found>, u64)> = std::thread::scope(|s| {
+            let level1 = &level1;
+            let next = &next;
+            let hs: Vec<_> = (0..nt)
+                .map(|_| {
+                    s.spawn(move || {
+                        let mut stats = Stats::default();
+                        let mut found = vec![];
+                        let mut nodes = 0u64;
+                        loop {
+                            let i = next.fetch_add(1, Ordering::Relaxed) as usize;
+                            if i >= level1.len() || t0.elapsed().as_secs_f64() > wall_cap_s {
+                                break;
+                            }
+                            let (p, start) = &level1[i];
+                            let mut stack = vec![start.clone()];
+                            while let Some(n) = stack.pop() {
+                                if n.ops.len() >= depth {
+                                    continue;
+                                }
+                                let mut visit = |sc: &Scenario, recs: &[CallRecord]| {
+                                    nodes += 1;
+                                    stats.evaluations += 1;
+                                    for v in evaluate_any(prop, sc, recs, &mut stats) {
+                                        if known_match(known, &v).is_none() && found.len() < 20 {
+                                            found.push(Found { index: (i as u64) << 32 | nodes, scenario: sc.clone(), violation: v });
+                                        }
+                                    }
+                                };
+                                let kids = tree_children(*p, &n, trace, &mut visit);
+                                stack.extend(kids);
+                            }
+                        }
+                        (stats, found, nodes)
+                    })
+                })
+                .collect();
+            hs.into_iter().map(|h| h.join().unwrap()).collect()
+        });
+        for (s, f, n) in parts {
+            stats.merge(s);
+            found.extend(f);
+            nodes += n;
+        }
+    }
+    found.sort_by_key(|f| f.index);
+    TreeOutcome { stats, found, nodes, depth }
 }
